@@ -83,13 +83,13 @@ fn any_crob() -> Group12Var1 {
 
 // @harness c16_echo_g12v1_u8
 // @props C16
-// @tier quick
-// @timeout 1800
-// @mem 6
+// @tier thorough
+// @timeout 5400
+// @mem 10
 // @units CommandHeader::{compare, compare_items}, Prefix::equals, Group12Var1::{read,write}, ControlCode::{from,as_u8}, CommandStatus::from
 // @bounds one header of 1 or 2 CROBs (every field arbitrary, 8-bit indices); reply = faithful echo, optionally with ONE byte XOR-ed by any non-zero mask at any position, object count right / one short / one long: success <=> untouched echo AND every status SUCCESS; otherwise the error names the cause (count, status, value)
 #[kani::proof]
-#[kani::unwind(36)]
+#[kani::unwind(40)]
 fn c16_echo_g12v1_u8() {
     echo_case!(Group12Var1, u8, any_crob(), CommandHeader::G12V1U8, HeaderDetails::OneByteCountAndPrefix, PrefixedVariation::Group12Var1, 12)
 }
@@ -102,7 +102,7 @@ fn c16_echo_g12v1_u8() {
 // @units CommandHeader::{compare, compare_items}, Group12Var1
 // @bounds as c16_echo_g12v1_u8 with 16-bit indices
 #[kani::proof]
-#[kani::unwind(40)]
+#[kani::unwind(42)]
 fn c16_echo_g12v1_u16() {
     echo_case!(Group12Var1, u16, any_crob(), CommandHeader::G12V1U16, HeaderDetails::TwoByteCountAndPrefix, PrefixedVariation::Group12Var1, 13)
 }
